@@ -377,7 +377,16 @@ class SneakierPool:
         except ModuleNotFoundError:
             self._processes = 1
 
-        init_args = (
+        self._install_functions()
+
+    def _install_functions(self):
+        """
+        Put this pool's own functions into the class-global FunctionCache. Called
+        on construction and again on entry, immediately before the workers are
+        forked: another pool may have overwritten the cache in between, and
+        __exit__ deletes it.
+        """
+        initializer(
             self.fitness_init,
             self.prior_transform_init,
             self.fitness_args,
@@ -385,7 +394,6 @@ class SneakierPool:
             self.prior_transform_args,
             self.prior_transform_kwargs,
         )
-        initializer(*init_args)
 
     def check_if_mpi(self):
         return self._processes > 1
@@ -413,6 +421,8 @@ class SneakierPool:
         """
 
         use_mpi = self.check_if_mpi()
+
+        self._install_functions()
 
         if use_mpi:
             from schwimmbad import MPIPool
